@@ -2342,6 +2342,28 @@ func (c *Ctx) sharedSlice(v ssa.Value, depth int, seen map[ssa.Value]bool) (stri
 					return d, true
 				}
 			}
+		case *ssa.Lookup, *ssa.Extract:
+			// an entry of a map that is kept in a field or package variable (a cache of prefixes)
+			var lk *ssa.Lookup
+			switch y := x.(type) {
+			case *ssa.Lookup:
+				lk = y
+			case *ssa.Extract:
+				lk, _ = y.Tuple.(*ssa.Lookup)
+			}
+			if lk == nil {
+				continue
+			}
+			for _, mo := range origins(lk.X) {
+				if u, ok := mo.(*ssa.UnOp); ok && u.Op == token.MUL {
+					if _, f, n := fieldOfAddr(u.X); n != nil {
+						return "an entry of the map in field " + namedName(n) + "." + f, true
+					}
+					if g, ok := u.X.(*ssa.Global); ok {
+						return "an entry of the package-level map " + g.Name(), true
+					}
+				}
+			}
 		case *ssa.Call:
 			if b, ok := x.Common().Value.(*ssa.Builtin); ok {
 				if b.Name() == "append" {
@@ -2370,6 +2392,69 @@ func (c *Ctx) sharedSlice(v ssa.Value, depth int, seen map[ssa.Value]bool) (stri
 	return "", false
 }
 
+// appendTarget: when call appends to one of its arguments and hands back the extended slice
+// (the builtin append, orderedcode.Append, strconv.Append*, or a library function that returns
+// such an append on its own parameter), the index of that argument; -1 otherwise.
+func (c *Ctx) appendTarget(call *ssa.Call, depth int) int {
+	if depth > 3 {
+		return -1
+	}
+	cc := call.Common()
+	if b, ok := cc.Value.(*ssa.Builtin); ok {
+		if b.Name() == "append" && len(cc.Args) >= 1 {
+			return 0
+		}
+		return -1
+	}
+	g := staticCallee(call)
+	if g == nil {
+		return -1
+	}
+	if g.Pkg != nil && g.Pkg.Pkg.Path() == "github.com/google/orderedcode" && g.Name() == "Append" {
+		return 0
+	}
+	if g.Pkg != nil && g.Pkg.Pkg.Path() == "strconv" && strings.HasPrefix(g.Name(), "Append") {
+		return 0
+	}
+	g = c.declared(g)
+	if !c.IsLib(g) || len(g.Blocks) == 0 || g.Signature.Results().Len() == 0 {
+		return -1
+	}
+	if _, isSl := g.Signature.Results().At(0).Type().Underlying().(*types.Slice); !isSl {
+		return -1
+	}
+	for _, ret := range returnsOf(g) {
+		rv, ok := returnedValue(ret, 0)
+		if !ok {
+			continue
+		}
+		for _, og := range origins(rv) {
+			var inner *ssa.Call
+			switch x := og.(type) {
+			case *ssa.Call:
+				inner = x
+			case *ssa.Extract:
+				inner, _ = x.Tuple.(*ssa.Call)
+			}
+			if inner == nil || inner == call {
+				continue
+			}
+			ti := c.appendTarget(inner, depth+1)
+			if ti < 0 || ti >= len(inner.Common().Args) {
+				continue
+			}
+			for _, ao := range origins(inner.Common().Args[ti]) {
+				if p, ok := ao.(*ssa.Parameter); ok {
+					if pi := paramIndex(g, p); pi >= 0 {
+						return pi
+					}
+				}
+			}
+		}
+	}
+	return -1
+}
+
 // ALIAS1: no append writes into the spare capacity of a slice that lives in a
 // struct field or package variable unless the result replaces that slice. Two
 // keys (or bounds) built by appending to the same cached prefix share one
@@ -2384,13 +2469,13 @@ func ruleALIAS1(c *Ctx) []Ob {
 			if !ok {
 				return
 			}
-			b, ok := call.Common().Value.(*ssa.Builtin)
-			if !ok || b.Name() != "append" || len(call.Common().Args) < 1 {
+			ai := c.appendTarget(call, 0)
+			if ai < 0 || ai >= len(call.Common().Args) {
 				return
 			}
 			n++
 			key := fmt.Sprintf("%s/append #%d", c.fname(fn), n)
-			desc, shared := c.sharedSlice(call.Common().Args[0], 0, map[ssa.Value]bool{})
+			desc, shared := c.sharedSlice(call.Common().Args[ai], 0, map[ssa.Value]bool{})
 			if !shared {
 				o.add(OK, key, relPath(c, call.Pos()), "appends to a slice that is local, fresh, or clipped")
 				return
@@ -2425,9 +2510,11 @@ func ruleALIAS1(c *Ctx) []Ob {
 					case *ssa.Phi:
 						fwd(x)
 					case *ssa.Call:
-						if bb, ok := x.Common().Value.(*ssa.Builtin); ok && bb.Name() == "append" && x.Common().Args[0] == v {
+						if ti := c.appendTarget(x, 0); ti >= 0 && ti < len(x.Common().Args) && x.Common().Args[ti] == v {
 							fwd(x)
 						}
+					case *ssa.Extract:
+						fwd(x)
 					}
 				}
 			}
@@ -5043,8 +5130,24 @@ func ruleNORM3(c *Ctx) []Ob {
 					continue
 				}
 				allCalls(f, func(ci ssa.CallInstruction) {
-					if g := staticCallee(ci); g != nil && c.declared(g) == isField && len(ci.Common().Args) == 1 && isListElem(ci.Common().Args[0]) {
-						elemChecked = true
+					if g := staticCallee(ci); g != nil && c.declared(g) == isField && len(ci.Common().Args) == 1 {
+						a := ci.Common().Args[0]
+						if isListElem(a) {
+							elemChecked = true
+						}
+						// or the test sits in a per-element helper that is called with the elements of a list
+						for _, og := range origins(a) {
+							p, ok := og.(*ssa.Parameter)
+							if !ok {
+								continue
+							}
+							idx := paramIndex(p.Parent(), p)
+							for _, cs := range c.staticCallers(p.Parent()) {
+								if idx >= 0 && idx < len(cs.Common().Args) && isListElem(cs.Common().Args[idx]) {
+									elemChecked = true
+								}
+							}
+						}
 					}
 				})
 			}
@@ -6704,32 +6807,18 @@ func ruleIMP4(c *Ctx) []Ob {
 // same transaction visits the remaining keys on both backends.
 func ruleADP13(c *Ctx) []Ob {
 	o := newObs(c, "ADP13")
-	n := 0
-	for _, fn := range c.LibFuncs {
-		if !strings.HasPrefix(c.pkgRel(fn), "store/") {
-			continue
-		}
-		var prevs []ssa.CallInstruction
-		allCalls(fn, func(ci ssa.CallInstruction) {
-			if calleeFullName(ci) == "(*go.etcd.io/bbolt.Cursor).Prev" {
-				prevs = append(prevs, ci)
-			}
-		})
-		if len(prevs) == 0 {
-			continue
-		}
-		n++
-		key := c.fname(fn) + "/a nil key from Prev is retried"
-		retried := false
-		for _, p := range prevs {
-			if !c.inLoop(p.Block()) {
-				continue
+	isPrev := func(ci ssa.CallInstruction) bool { return calleeFullName(ci) == "(*go.etcd.io/bbolt.Cursor).Prev" }
+	// retries(f): f calls Cursor.Prev inside a loop governed by a nil test of the key Prev returned
+	retries := func(fn *ssa.Function) bool {
+		found := false
+		allCalls(fn, func(p ssa.CallInstruction) {
+			if !isPrev(p) || !c.inLoop(p.Block()) {
+				return
 			}
 			h, body := c.innermostLoop(p.Block())
 			if h == nil {
-				continue
+				return
 			}
-			// the loop is governed by a nil test of a key Prev returned
 			for b := range body {
 				if len(b.Instrs) == 0 {
 					continue
@@ -6741,22 +6830,162 @@ func ruleADP13(c *Ctx) []Ob {
 				if x, _, isNil := nilTest(iff.Cond); isNil {
 					for _, og := range origins(x) {
 						if ex, ok := og.(*ssa.Extract); ok {
-							if cl, ok := ex.Tuple.(*ssa.Call); ok && calleeFullName(cl) == "(*go.etcd.io/bbolt.Cursor).Prev" {
-								retried = true
+							if cl, ok := ex.Tuple.(*ssa.Call); ok && isPrev(cl) {
+								found = true
 							}
 						}
 					}
 				}
 			}
+		})
+		return found
+	}
+	n := 0
+	for _, fn := range c.LibFuncs {
+		if !strings.HasPrefix(c.pkgRel(fn), "store/") {
+			continue
 		}
-		if retried {
-			o.add(OK, key, relPath(c, prevs[0].Pos()), "Cursor.Prev is called in a loop governed by a nil test of the key it returned")
+		var prevs []*ssa.Call
+		allCalls(fn, func(ci ssa.CallInstruction) {
+			if cl, ok := ci.(*ssa.Call); ok && isPrev(ci) {
+				prevs = append(prevs, cl)
+			}
+		})
+		if len(prevs) == 0 {
+			continue
+		}
+		n++
+		key := c.fname(fn) + "/a nil key from Prev is retried"
+		ok := retries(fn)
+		how := "Cursor.Prev is called in a loop governed by a nil test of the key it returned"
+		if !ok {
+			// or: on the nil outcome the function hands over to a helper that retries
+			all := true
+			for _, p := range prevs {
+				handed := false
+				for _, kv := range resultValues(p, 0) {
+					ne := nilEdges(fn, sameValue(kv))
+					allCalls(fn, func(ci ssa.CallInstruction) {
+						if g := staticCallee(ci); g != nil && c.IsLib(c.declared(g)) && retries(c.declared(g)) && guardedBy(fn, ci.Block(), ne) {
+							handed = true
+						}
+					})
+				}
+				if !handed {
+					all = false
+				}
+			}
+			if all {
+				ok, how = true, "on a nil key the function hands over to a helper that calls Cursor.Prev in a loop governed by a nil test of its key"
+			}
+		}
+		if ok {
+			o.add(OK, key, relPath(c, prevs[0].Pos()), "%s", how)
 		} else {
 			o.add(VIOLATED, key, relPath(c, prevs[0].Pos()), "the key returned by bbolt's Cursor.Prev is used as it is: Prev also returns nil on a leaf emptied by deletions of the running transaction, so after deleting k0300..k0699 of k0000..k0999 a reverse scan stops at k0700 and a reverse Seek(\"k0500\") finds nothing, while badger goes on to k0299")
 		}
 	}
 	if n == 0 {
 		o.add(INFO, "bbolt adapter", "-", "no call of (*bbolt.Cursor).Prev in the adapters")
+	}
+	return o.list
+}
+
+
+// ---------------------------------------------------------------- NIL6
+
+// NIL6: what a call hands back next to an error goes into storage that outlives the
+// call (a sync.Map, a map or variable of the package, a field) only where that error
+// is known to be nil. `re, err := regexp.Compile(p); cache.Store(p, re); return re, err`
+// caches the nil of the failure: the first evaluation reports the error, every later
+// one finds the nil entry, returns it with a nil error, and the caller calls a method
+// on a nil pointer.
+func ruleNIL6(c *Ctx) []Ob {
+	o := newObs(c, "NIL6")
+	n := 0
+	for _, fn := range c.LibFuncs {
+		k := 0
+		allCalls(fn, func(ci ssa.CallInstruction) {
+			call, ok := ci.(*ssa.Call)
+			if !ok {
+				return
+			}
+			sig := call.Call.Signature()
+			if sig.Results().Len() < 2 || !isErrorType(sig.Results().At(sig.Results().Len()-1).Type()) {
+				return
+			}
+			ei := sig.Results().Len() - 1
+			var errEdges []edge
+			for _, ev := range extractsOf(call, ei) {
+				errEdges = append(errEdges, nilEdges(fn, sameValue(ev))...)
+			}
+			for ri := 0; ri < ei; ri++ {
+				switch sig.Results().At(ri).Type().Underlying().(type) {
+				case *types.Pointer, *types.Interface, *types.Map, *types.Slice:
+				default:
+					continue
+				}
+				for _, rv := range extractsOf(call, ri) {
+					// shared sinks of rv
+					var sinks []ssa.Instruction
+					var walk func(v ssa.Value, depth int)
+					walk = func(v ssa.Value, depth int) {
+						if depth > 3 {
+							return
+						}
+						for _, r := range realReferrers(v) {
+							switch x := r.(type) {
+							case *ssa.MakeInterface:
+								walk(x, depth+1)
+							case *ssa.ChangeInterface:
+								walk(x, depth+1)
+							case ssa.CallInstruction:
+								full := calleeFullName(x)
+								if full == "(*sync.Map).Store" || full == "(*sync.Map).LoadOrStore" || full == "(*sync.Map).Swap" {
+									sinks = append(sinks, x)
+								}
+							case *ssa.MapUpdate:
+								if x.Value == v {
+									shared := false
+									for _, og := range origins(x.Map) {
+										if globalLoad(og) != nil {
+											shared = true
+										}
+										if _, f, _ := fieldLoad(og); f != "" {
+											shared = true
+										}
+									}
+									if shared {
+										sinks = append(sinks, x)
+									}
+								}
+							case *ssa.Store:
+								if x.Val != v {
+									continue
+								}
+								if _, isG := x.Addr.(*ssa.Global); isG {
+									sinks = append(sinks, x)
+								}
+							}
+						}
+					}
+					walk(rv, 0)
+					for _, sk := range sinks {
+						n++
+						k++
+						key := fmt.Sprintf("%s/result of %s kept #%d", c.fname(fn), shortCallee(call), k)
+						if guardedBy(fn, sk.Block(), errEdges) {
+							o.add(OK, key, relPath(c, sk.Pos()), "stored only where the error is nil")
+						} else {
+							o.add(VIOLATED, key, relPath(c, sk.Pos()), "the result of %s is put into shared storage without its error having been tested: on failure the nil result is kept, a later call finds it, hands it out with a nil error, and the caller dereferences nil (Like(\"title-(\") evaluated twice)", c.calleeName(call))
+						}
+					}
+				}
+			}
+		})
+	}
+	if n == 0 {
+		o.add(OK, "caches", "-", "no result of a fallible call is put into a sync.Map, a package-level map or variable")
 	}
 	return o.list
 }
